@@ -49,6 +49,8 @@ def gen_case(rng: Rng, i: int, tier: str):
             st["points"] = sorted(r.sample(range(2, 200), r.randint(1, 3)))
         else:
             st["victim"] = 1  # the reporter is the first thread py7zr starts
+        if tier == "thorough" and r.chance(0.5):
+            st["line_p"] = r.pick([0.005, 0.02, 0.1])  # line-level pre-emption inside py7zr frames
         scheds.append(st)
     return {"archive": arc, "call": op, "open": r.pick(["path", "stream"]), "handler_ms": r.wpick([(4, 0), (2, 1), (2, 10), (2, 50)]),
             "clock_jump": r.pick([0.0, 0.3, 1.5]), "scheds": scheds}
@@ -237,6 +239,10 @@ def run_case(case):
         concurrent = _reporter_concurrent(sched)
         res["sigs"].append(([digest_of(built.image)[:10], str(case["call"]), case["handler_ms"], digest_of(sig)[:12]], concurrent))
         res["extra"]["context_switches"] = res["extra"].get("context_switches", 0) + sched.switches
+        res["extra"]["line_preemptions"] = res["extra"].get("line_preemptions", 0) + len(sched.line_yields)
+        for v in res["violations"]:
+            if v.get("trace") is None:
+                v["trace"] = {"schedule_index": si, "sched": list(sched.choices), "line_yields": list(sched.line_yields)}
         res["extra"]["callbacks_recorded"] = res["extra"].get("callbacks_recorded", 0) + len(o["hist"])
         res["faults"]["handler_blocks_%dms" % case["handler_ms"]] = res["faults"].get("handler_blocks_%dms" % case["handler_ms"], 0) + (1 if case["handler_ms"] else 0)
         if case["clock_jump"]:
